@@ -35,6 +35,7 @@ def cross_compare(ctx, info, rng, fam, hs):
         lease_name = [{}, {}]
         gen_name = [{}, {}]
         ended = False
+        prev_snap = []
         for k, (op, sm, ss) in enumerate(zip(h["ops"], om["steps"], osq["steps"])):
             if op["op"] == "reopen":
                 # a process restart is not a Store-interface call and means different things for the two backends
@@ -77,7 +78,9 @@ def cross_compare(ctx, info, rng, fam, hs):
                     v["matched"] = 0
                 views.append(v)
             a, b = views
+            before_snap = prev_snap        # the stores agreed on it (or it is None before the first snapshot)
             if a == b:
+                prev_snap = a["snap"] if a["snap"] is not None else prev_snap
                 oa = [r["id"] for r in sm["res"].get("items") or []]
                 ob = [r["id"] for r in ss["res"].get("items") or []]
                 if [gen_name[0].get(x, x) for x in oa] != [gen_name[1].get(x, x) for x in ob]:
@@ -104,6 +107,20 @@ def cross_compare(ctx, info, rng, fam, hs):
                 rb = set(json.loads(x)["id"] for x in b["snap"])
                 if len(ra) == len(rb) and ra != rb:
                     sanctioned = True          # DLQ depth prune chose differently inside a received_at tie
+            rows_before = [json.loads(x) for x in (before_snap or [])]
+            if op["op"] in ("enqueue", "enqueue_batch") and h["cfg"]["drop_oldest"] and h["cfg"]["max_depth"] > 0:
+                # the victim among equally old queued messages is a sanctioned choice; when the incoming id equals one of the tied
+                # candidates the choice also decides between "replaced" and "duplicate id" (found by the thorough tier)
+                qr = sorted(r["recv"] for r in rows_before if r["state"] == "queued")
+                if len(qr) >= 2 and qr[0] == qr[1]:
+                    sanctioned = True
+            if op["op"] in ("list", "list_dead", "manage_f") and a["err"] == b["err"]:
+                # order inside a received_at tie is by id, and generated ids are random per store: a limit that cuts through such a tie
+                # selects different messages (the statement allows differences in generated ids)
+                recv_of_generated = set(r["recv"] for r in rows_before if str(r["id"]).startswith("G"))
+                if any(r["recv"] in recv_of_generated and not str(r["id"]).startswith("G") for r in rows_before) or \
+                        len([r for r in rows_before if str(r["id"]).startswith("G")]) != len(recv_of_generated):
+                    sanctioned = True
             if sanctioned:
                 diverged_on_choice += 1
                 ended = True
